@@ -8,6 +8,8 @@ def run(ck):
     from harness.drivers import contract
     tids = gen.Tids()
     progs = fuse.commute_programs(ck.seed, 240 if q else 4000, tids=tids)
+    from harness.drivers import history
+    progs += history.derived_programs(ck.seed, 40 if q else 800, tids=tids)
     for kind in ("abelian", "fermionic"):
         progs += contract.sparse_rank4_programs(ck.seed, 80 if q else 1500, kind, tids=tids, salt="c06s4",
                                                  rel_clause="C06.strategies_agree.sparse")
